@@ -545,7 +545,7 @@ func checkCli(c CliCase) error {
 		}
 		comps.WriteString(ref.Write(m) + "\n")
 	}
-	args := []string{"compare", "trees", "-i", cli.Write(dir, "ref.nw", ref.Write(c.Ref)+"\n"), "-c", cli.Write(dir, "comp.nw", comps.String()), "-t", strconv.Itoa(c.Threads)}
+	args := []string{"compare", "trees", "-i", cli.WriteIn(dir, "ref.nw", ref.Write(c.Ref)+"\n"), "-c", cli.WriteIn(dir, "comp.nw", comps.String()), "-t", strconv.Itoa(c.Threads)}
 	if c.Tips {
 		args = append(args, "-l")
 	}
